@@ -546,12 +546,18 @@ RCP<const Set> solve(const RCP<const Basic> &f, const RCP<const Symbol> &sym,
     }
 
     if (is_a<Mul>(*f)) {
-        auto args = f->get_args();
-        set_set solns;
-        for (auto &a : args) {
-            solns.insert(solve(a, sym, domain));
+        // a product vanishes where a factor does, unless another factor has
+        // a pole there: quotients are left to solve_rational
+        RCP<const Basic> num, den;
+        as_numer_denom(f, outArg(num), outArg(den));
+        if (not has_symbol(*den, *sym)) {
+            auto args = f->get_args();
+            set_set solns;
+            for (auto &a : args) {
+                solns.insert(solve(a, sym, domain));
+            }
+            return SymEngine::set_union(solns);
         }
-        return SymEngine::set_union(solns);
     }
 
     return solve_rational(f, sym, domain);
